@@ -42,11 +42,21 @@ impl Middleware for TraceMw {
     }
 }
 
-struct CountMw(Arc<AtomicU64>);
+type Seen = Arc<Mutex<Vec<(Option<String>, Option<u64>)>>>;
+/// Forwarding middleware that counts its runs and records the context `Next` shows it.
+struct CountMw(Arc<AtomicU64>, Seen);
 impl Middleware for CountMw {
     fn handle(&self, req: &Message, next: Next<'_>) -> Result<Message, RepeError> {
         self.0.fetch_add(1, Ordering::SeqCst);
+        self.1.lock().unwrap().push((next.ctx().map(|c| c.method().to_string()), next.peer().map(|p| p.peer_id().0)));
         next.run(req)
+    }
+}
+
+struct NullSink;
+impl repe::PeerSink for NullSink {
+    fn send_notify(&self, _method: &str, _body: repe::NotifyBody) -> Result<(), repe::PeerSendError> {
+        Ok(())
     }
 }
 
@@ -532,11 +542,11 @@ fn code_of(n: u32) -> ErrorCode {
 
 const TWIN_PATH: &str = "/t/x";
 
-fn twin_router(kind: &str, blocking: bool, ok: bool, code: ErrorCode, nmw: usize, order: u8, counts: &[Arc<AtomicU64>]) -> Option<Router> {
+fn twin_router(kind: &str, blocking: bool, ok: bool, code: ErrorCode, nmw: usize, order: u8, counts: &[Arc<AtomicU64>], seen: &Seen) -> Option<Router> {
     let mut r = Router::new();
     let add_mws = |mut r: Router| {
         for c in counts.iter().take(nmw) {
-            r = r.with_middleware(CountMw(c.clone()));
+            r = r.with_middleware(CountMw(c.clone(), seen.clone()));
         }
         r
     };
@@ -547,8 +557,8 @@ fn twin_router(kind: &str, blocking: bool, ok: bool, code: ErrorCode, nmw: usize
     r = match (kind, blocking) {
         ("json", false) => r.with_json(TWIN_PATH, move |v| if ok { Ok(json!({"echo": v})) } else { Err(fail()) }),
         ("json", true) => r.with_json_blocking(TWIN_PATH, move |v| if ok { Ok(json!({"echo": v})) } else { Err(fail()) }),
-        ("jsonctx", false) => r.with_json_ctx(TWIN_PATH, move |c: &CallContext, v| if ok { Ok(json!({"m": c.method(), "echo": v})) } else { Err(fail()) }),
-        ("jsonctx", true) => r.with_json_ctx_blocking(TWIN_PATH, move |c: &CallContext, v| if ok { Ok(json!({"m": c.method(), "echo": v})) } else { Err(fail()) }),
+        ("jsonctx", false) => r.with_json_ctx(TWIN_PATH, move |c: &CallContext, v| if ok { Ok(json!({"m": c.method(), "peer": c.peer().map(|p| p.peer_id().0), "echo": v})) } else { Err(fail()) }),
+        ("jsonctx", true) => r.with_json_ctx_blocking(TWIN_PATH, move |c: &CallContext, v| if ok { Ok(json!({"m": c.method(), "peer": c.peer().map(|p| p.peer_id().0), "echo": v})) } else { Err(fail()) }),
         ("typed", false) => r.with_typed::<P, P, _>(TWIN_PATH, move |p: P| -> Result<TypedResponse<P>, (ErrorCode, String)> {
             if ok { Ok(TypedResponse::beve(P { a: p.a.wrapping_add(1), s: p.s })) } else { Err(fail()) }
         }),
@@ -556,10 +566,10 @@ fn twin_router(kind: &str, blocking: bool, ok: bool, code: ErrorCode, nmw: usize
             if ok { Ok(TypedResponse::beve(P { a: p.a.wrapping_add(1), s: p.s })) } else { Err(fail()) }
         }),
         ("typedctx", false) => r.with_typed_ctx::<P, P, _>(TWIN_PATH, move |c: &CallContext, p: P| -> Result<P, (ErrorCode, String)> {
-            if ok { Ok(P { a: p.a.wrapping_add(1), s: format!("{}{}", c.method(), p.s) }) } else { Err(fail()) }
+            if ok { Ok(P { a: p.a.wrapping_add(1), s: format!("{}{:?}{}", c.method(), c.peer().map(|p| p.peer_id().0), p.s) }) } else { Err(fail()) }
         }),
         ("typedctx", true) => r.with_typed_ctx_blocking::<P, P, _>(TWIN_PATH, move |c: &CallContext, p: P| -> Result<P, (ErrorCode, String)> {
-            if ok { Ok(P { a: p.a.wrapping_add(1), s: format!("{}{}", c.method(), p.s) }) } else { Err(fail()) }
+            if ok { Ok(P { a: p.a.wrapping_add(1), s: format!("{}{:?}{}", c.method(), c.peer().map(|p| p.peer_id().0), p.s) }) } else { Err(fail()) }
         }),
         ("adapter", false) => r.with_handler(TWIN_PATH, PAdapter { ok, code }),
         ("slice", false) => r.with_typed_slice::<f64, f64, _>(TWIN_PATH, move |xs: Vec<f64>| if ok { Ok(xs.iter().map(|x| x * 2.0).collect()) } else { Err(fail()) }),
@@ -636,10 +646,11 @@ fn exec_twin(out: &mut Out, line: &str, w: &[&str]) -> (String, bool) {
     let rid: u64 = w[14].parse().unwrap_or(1);
     let ops = vec![line.to_string()];
     let counts: Vec<Arc<AtomicU64>> = (0..nmw).map(|_| Arc::new(AtomicU64::new(0))).collect();
+    let seen: Seen = Arc::new(Mutex::new(vec![]));
     let (Some(plain), Some(raw), Some(wrapped)) = (
-        twin_router(kind, false, ok, code, 0, 0, &counts),
-        twin_router(kind, blocking, ok, code, 0, 0, &counts),
-        twin_router(kind, blocking, ok, code, nmw, order, &counts),
+        twin_router(kind, false, ok, code, 0, 0, &counts, &seen),
+        twin_router(kind, blocking, ok, code, 0, 0, &counts, &seen),
+        twin_router(kind, blocking, ok, code, nmw, order, &counts, &seen),
     ) else {
         return bad();
     };
@@ -669,6 +680,14 @@ fn exec_twin(out: &mut Out, line: &str, w: &[&str]) -> (String, bool) {
                 "handle_with_ctx" => h.handle_with_ctx(&req, &ctx),
                 _ => h.handle_view(&view, &ctx),
             });
+            if *hn == "wrapped" {
+                // every link of the chain must have been shown the caller's context (none for `handle`)
+                let want = if route == "handle" { None } else { Some(method.to_string()) };
+                let got = std::mem::take(&mut *seen.lock().unwrap());
+                if got.len() != nmw || got.iter().any(|(m, p)| *m != want || p.is_some()) {
+                    out.oracle_fail("router.twin.ctx_link", &format!("{} behind {} middleware: links saw {:?}, expected {} x {:?}", route, nmw, got, nmw, want), &ops);
+                }
+            }
             if first.is_none() {
                 first = Some(match &r {
                     Err(_) => "PANIC".into(),
@@ -693,11 +712,23 @@ fn exec_twin(out: &mut Out, line: &str, w: &[&str]) -> (String, bool) {
     // the context is an input too: with a context whose method differs from the query, every
     // context-taking route of every wrapper must still agree (a wrapper that drops the context and
     // lets the leaf re-derive one from the query would answer differently for the ctx kinds)
-    let ctx2 = CallContext::detached("/ctx/marker");
+    let peer = repe::PeerHandle::new(repe::PeerId(77), Arc::new(NullSink));
+    let ctx2 = CallContext::new("/ctx/marker", &peer);
+    let mut links_with_ctx = 0usize;
     let mut first2: Option<(String, String)> = None;
     for (hn, h) in handlers.iter() {
         for route in ["handle_with_ctx", "handle_view"] {
             let r = catch(|| if route == "handle_view" { h.handle_view(&view, &ctx2) } else { h.handle_with_ctx(&req, &ctx2) });
+            if *hn == "wrapped" {
+                let saw = std::mem::take(&mut *seen.lock().unwrap());
+                let good = saw.iter().filter(|(m, p)| m.as_deref() == Some("/ctx/marker") && *p == Some(77)).count();
+                if route == "handle_with_ctx" {
+                    links_with_ctx = good;
+                }
+                if saw.len() != nmw || good != nmw {
+                    out.oracle_fail("router.twin.ctx_link", &format!("{} behind {} middleware with a peer context: links saw {:?}", route, nmw, saw), &ops);
+                }
+            }
             let got = norm(rid, &query, r);
             match &first2 {
                 None => first2 = Some((format!("{}.{}", hn, route), got)),
@@ -741,7 +772,7 @@ fn exec_twin(out: &mut Out, line: &str, w: &[&str]) -> (String, bool) {
     let class = first.unwrap();
     out.count(&format!("twin.{}.{}", kind, class.split(' ').next().unwrap()));
     let printed = if kind == "registry" || kind == "struct" { "-".to_string() } else { class.clone() };
-    (format!("{} {} exec {}", idx, printed, exec), class != "rej 4" || bfmt <= 3)
+    (format!("{} {} exec {} links {}", idx, printed, exec, links_with_ctx), class != "rej 4" || bfmt <= 3)
 }
 
 // ------------------------------------------------------------------------------------------
